@@ -515,9 +515,13 @@ def body_stage(case):
             want = base
             if rejected:
                 labels.add("after_rejected_call")
-        elif which == "interleave":
-            if not stage.reentrant:
+        elif which in ("interleave", "interleave_other"):
+            if which == "interleave" and not stage.reentrant:
                 continue
+            # (interleave_other: the overlapping call runs on a SECOND object of the same configuration - legitimate for
+            # every stage; what it can disturb is state shared between objects: module-level scratch arrays, memos)
+            with cut(f"{stage.name}: construct"):
+                obj_b = obj if which == "interleave" else stage.make(case)
             # harness-owned schedule: a call on this object is suspended after its k-th line inside the package, a
             # second call (the permuted batch: same shapes) runs to completion on the SAME object, the first resumes
             from ..interleave import run_interleaved
@@ -525,17 +529,17 @@ def body_stage(case):
             r, want = [np.array(b_) for b_ in base], base
             for k_ in case.get("preempt", [3]):
                 mine, theirs = tuple(np.array(a) for a in arrays), tuple(np.array(a[perm]) for a in arrays)
-                o = run_interleaved(lambda: stage.call(obj, mine, c), lambda: stage.call(obj, theirs, c), k_)
+                o = run_interleaved(lambda: stage.call(obj, mine, c), lambda: stage.call(obj_b, theirs, c), k_)
                 for exc, who in ((o.a_exc, "suspended"), (o.b_exc, "overlapping")):
                     if exc is not None:
-                        raise Violation(f"{stage.name}: the {who} one of two overlapping calls on one object raised {type(exc).__name__}: {str(exc)[:200]} (first call suspended after {k_} lines)")
+                        raise Violation(f"{stage.name}: the {who} one of two overlapping calls on {'one object' if which == 'interleave' else 'two objects of one configuration'} raised {type(exc).__name__}: {str(exc)[:200]} (first call suspended after {k_} lines)")
                 ra, rb = [np.asarray(x) for x in o.a], [np.asarray(x) for x in o.b]
                 for j2, (g, b) in enumerate(zip(ra, base)):
-                    require(_bytes([g]) == _bytes([b]), f"{stage.name}: a call suspended after {k_} lines while a second call ran on the same object returns other values in output #{j2} than on its own ({n} events)")
+                    require(_bytes([g]) == _bytes([b]), f"{stage.name}: a call suspended after {k_} lines while a second call ran on {'the same object' if which == 'interleave' else 'another object of the same configuration'} returns other values in output #{j2} than on its own ({n} events)")
                 for j2, (g, b) in enumerate(zip(rb, base)):
-                    require(_bytes([g]) == _bytes([b[perm]]), f"{stage.name}: a call that ran while another call on the same object was suspended after {k_} lines returns other values in output #{j2} than on its own ({n} events)")
+                    require(_bytes([g]) == _bytes([b[perm]]), f"{stage.name}: a call that ran while another call on {'the same object' if which == 'interleave' else 'another object of the same configuration'} was suspended after {k_} lines returns other values in output #{j2} than on its own ({n} events)")
                 if o.reached:
-                    labels.add("overlapping_calls")
+                    labels.add("overlapping_calls" if which == "interleave" else "overlapping_calls_two_objects")
         elif which == "churn":
             # objects of other configurations are created, used and dropped (their memory is recycled), then a NEW
             # object of this configuration is created: it must not inherit anything from the dead ones
@@ -708,7 +712,7 @@ def stage_case(names, sizes):
             "c": st.floats(0.01, 0.99),
             "perm": st.lists(st.floats(0.0, 1.0), min_size=16, max_size=16),
             "split": st.sampled_from(["0", "1", "n-1", "n", "0.5", "0.37", "0.9", "0.41"]),
-            "history": st.lists(st.sampled_from(["same", "perm", "half", "refill", "refill", "scribble", "alt", "other", "other", "strided", "reject", "reject", "bigendian", "fortran2d", "transposed2d", "churn", "interleave", "interleave"]), min_size=1, max_size=6),
+            "history": st.lists(st.sampled_from(["same", "perm", "half", "refill", "refill", "scribble", "alt", "other", "other", "strided", "reject", "reject", "bigendian", "fortran2d", "transposed2d", "churn", "interleave", "interleave", "interleave_other", "interleave_other"]), min_size=1, max_size=6),
             "preempt": st.lists(st.one_of(st.integers(0, 40), st.integers(0, 400), st.integers(0, 6000)), min_size=1, max_size=3),
         }
     )
